@@ -13,7 +13,7 @@ func init() {
 			{Name: "argon-memory-differs", File: "wallet/password.go", Old: "func (h *passwordHash) SetFromJSON(password string, params argon2Params) error {\n\th.salt = params.Salt\n", New: "func (h *passwordHash) SetFromJSON(password string, params argon2Params) error {\n\th.salt = params.Salt[:len(params.Salt):len(params.Salt)]\n", ExpectKeySub: "SetFromJSON"},
 			{Name: "open-in-place", File: "wallet/crypto.go", Old: "stream.Open(nil,", New: "stream.Open(cipherText[:0],", ExpectKeySub: "aesGCMDecrypt"},
 			{Name: "hardened-guard-dropped", File: "wallet/derivation.go", Old: "\tif i < FirstHardenedIndex {\n\t\treturn nil, ErrNoPublicDerivation\n\t}\n", New: "", ExpectKeySub: "derive"},
-			{Name: "nonce-not-stored", File: "wallet/keystore.go", Old: "\t\t\tAesNonce:   nonce,", New: "\t\t\tAesNonce:   cipherData[:12],", ExpectKeySub: "AesNonce"},
+			{Name: "nonce-not-stored", File: "wallet/keystore.go", Old: "\t\t\tAesNonce:   nonce,", New: "\t\t\tAesNonce:   derivedKey.salt,", ExpectKeySub: "AesNonce"},
 			{Name: "wrong-password-returns-data", File: "wallet/keyfile.go", Old: "\tif err != nil {\n\t\treturn nil, ErrWrongPassword\n\t}\n\n\treturn keyStoreFromEntropy(entropy)", New: "\tif err != nil && len(entropy) == 0 {\n\t\treturn nil, ErrWrongPassword\n\t}\n\n\treturn keyStoreFromEntropy(entropy)", ExpectKeySub: "Decrypt"},
 			{Name: "base-address-index-1", File: "wallet/keystore.go", Old: "ks.DeriveForIndexPath(0)", New: "ks.DeriveForIndexPath(1)", ExpectKeySub: "keyStoreFromEntropy"},
 			{Name: "random-in-derivation", File: "wallet/derivation.go", Old: "\tif i < FirstHardenedIndex {\n\t\treturn nil, ErrNoPublicDerivation\n\t}\n", New: "\tif i < FirstHardenedIndex {\n\t\treturn nil, ErrNoPublicDerivation\n\t}\n\t_ = GetEntropyCSPRNG(1)\n", ExpectKeySub: "GetEntropyCSPRNG"},
